@@ -603,10 +603,11 @@ def call_builtin(ex, name, args, kwargs, node):
   if name == 'all' or name == 'any':
     v = args[0]
     from pyvc.exec import Iter
-    if isinstance(v, VList) and v.kind.elem is KBool:
+    if isinstance(v, VList):
       i = z3.Int('i!all')
-      body = z3.Implies(z3.And(0 <= i, i < v.len), v.arr[i]) if name == 'all' else \
-          z3.And(0 <= i, i < v.len, v.arr[i])
+      t = v.arr[i] if v.kind.elem is KBool else v.kind.elem.unbox(v.arr[i]).truthy()
+      body = z3.Implies(z3.And(0 <= i, i < v.len), t) if name == 'all' else \
+          z3.And(0 <= i, i < v.len, t)
       return VBool(z3.ForAll([i], body) if name == 'all' else z3.Exists([i], body))
     if isinstance(v, VTuple):
       ts = [ex.truth(x, node) for x in v.items]
